@@ -114,6 +114,17 @@ func infoFromCell(cell *hrpc.Cell) (hrpc.RegionInfo, error) {
 		// if default namespace, pretend there's no namespace
 		namespace = regInfo.TableName.Namespace
 	}
+	// The region cache is ordered by name but searched by start key: a
+	// name that disagrees with the region info would hide the region from
+	// the ones it overlaps.
+	table := regInfo.TableName.Qualifier
+	if len(namespace) != 0 {
+		table = append(append(append([]byte(nil), namespace...), ':'), table...)
+	}
+	if !bytes.Equal(cell.Row[:first], table) ||
+		!bytes.Equal(cell.Row[first+1:last], regInfo.StartKey) {
+		return nil, fmt.Errorf("region name doesn't match region info in %q", cell)
+	}
 
 	return NewInfo(
 		regInfo.GetRegionId(),
